@@ -194,6 +194,11 @@ impl<'a> MlpgGlobalVariance<'a> {
     /// Adjust parameter's deviation from mean value using gv_mean
     fn conv_gv(&mut self, gv_mean: f64) {
         let (mean, vari) = self.calc_gv();
+        if vari <= 0.0 {
+            // a single eligible frame (or a constant trajectory) has no variance to rescale;
+            // gv_mean / 0 would turn every eligible frame into NaN
+            return;
+        }
         let ratio = (gv_mean / vari).sqrt();
         self.par
             .iter_mut()
